@@ -95,7 +95,7 @@ def run_history(doc: str, ops: list[dict], *, predict: bool = True) -> list[Step
 
 def facts_of(st: Step) -> dict:
     """Region facts of a step, used to attribute violations to known findings."""
-    from .model import PathError, parse_npath
+    from .model import PathError, PathUnspecified, parse_npath
 
     f = {
         "op": st.op["op"],
@@ -108,7 +108,7 @@ def facts_of(st: Step) -> dict:
         depth, segs = parse_npath(st.op.get("path", ""))
         f["depth"] = depth
         f["nsegs"] = len(segs)
-    except PathError:
+    except (PathError, PathUnspecified):
         f["depth"] = None
         f["nsegs"] = None
     if st.dec_before is not None and st.dec_before.shape.editable:
@@ -216,6 +216,8 @@ def oracle_c08(doc: str, ops: list[dict], steps: list[Step]) -> list[Violation]:
     any_failed = False
     for st in steps:
         f = facts_of(st)
+        if st.dec_before.error and not st.fresh:
+            continue  # live object whose own rebuild is already invalid: C05's finding, not this step's
         if st.outcome == "exc":
             any_failed = True
             if st.pred[0] == "reject" and not ({"KeyError", "ValueError"} & set(st.exc_mro)):
